@@ -94,6 +94,10 @@ def cases(rng, tier):
     for _ in range(n):
         out.append({"t": "hist", "oidc": rng.random() < 0.6, "jwt": rng.random() < 0.3, "gen_seed": rng.getrandbits(48),
                     "n": rng.randint(8, 24 if tier == "quick" else 40), "w": W})
+    # grants without a lifetime of their own: what bounds a code is then its own lifetime alone
+    for _ in range(max(4, n // 5)):
+        out.append({"t": "hist", "oidc": rng.random() < 0.6, "jwt": rng.random() < 0.3, "usage": "nogrant", "gen_seed": rng.getrandbits(48),
+                    "n": rng.randint(8, 20), "w": dict(W, tick=16)})
     return out
 
 
@@ -102,7 +106,7 @@ def _ops_for(c):
         return _il_ops(c)
     if "ops" in c:
         return c["ops"]
-    ops, _ = prov.gen_adaptive(random.Random(c["gen_seed"]), c["n"], oidc=c["oidc"], jwt=c["jwt"], weights=c.get("w"))
+    ops, _ = prov.gen_adaptive(random.Random(c["gen_seed"]), c["n"], oidc=c["oidc"], jwt=c["jwt"], weights=c.get("w"), usage=c.get("usage"))
     return ops
 
 
@@ -157,7 +161,7 @@ def impl(c):
     if c["t"] == "sso":
         return _sso_impl(c)
     ops = _ops_for(c)
-    R = prov.Runner(c["oidc"], c["jwt"], **c.get("runner", {}))
+    R = prov.Runner(c["oidc"], c["jwt"], **(c.get("runner") or ({"usage": c["usage"]} if c.get("usage") else {})))
     steps = []
     for o in ops:
         r = R.op(o)
@@ -168,7 +172,7 @@ def impl(c):
 def model_lines(c, obs):
     if c.get("runner"):
         return []          # configuration variants outside the driver's fixed rule table: oracle only
-    return [prov.cfg_line(c["oidc"], c["jwt"])] + [prov.model_line(o) for o in obs["ops"]]
+    return [prov.cfg_line(c["oidc"], c["jwt"], c.get("usage"))] + [prov.model_line(o) for o in obs["ops"]]
 
 
 def compare(c, obs, outs):
@@ -246,7 +250,14 @@ def corpus():
                     "ops": [["authorize", "diana", "client_1", ["openid", "email"], RED], ["authorize", "diana", "client_1", ["openid", "email"], R2, "sso"],
                             ["tokenParse", "client_1", 3, RED], ["tokenProcess", 0], ["tokenParse", "client_1", 3, R2], ["tokenProcess", 0],
                             ["tokenParse", "client_1", 1, R2], ["tokenProcess", 0], ["tokenParse", "client_1", 1, RED], ["tokenProcess", 0]]})
-    return sso + _corpus0()
+    return sso + _corpus0() + _corpus_nogrant()
+
+
+def _corpus_nogrant():
+    return [{"t": "hist", "oidc": oidc, "jwt": False, "usage": "nogrant",
+             "ops": [["authorize", "diana", "client_1", ["openid"], RED], ["tick", 301], ["tokenParse", "client_1", 1, RED], ["tokenProcess", 0],
+                     ["authorize", "diana", "client_1", ["openid"], RED], ["tick", 299], ["tokenParse", "client_1", 3, RED], ["tokenProcess", 0]]}
+            for oidc in (True, False)]
 
 
 def _corpus0():
